@@ -123,3 +123,19 @@ Example C08_lzx_sample : let n := N.of_nat (length OabSample.s_data) in
   fst (Lzx.lzx_run 17 0 n true [] (OabSample.s_stream ++ OabSample.s_pad) [10; n - 10]) = [0; 0] /\
   snd (Lzx.lzx_run 17 0 n true [] (OabSample.s_stream ++ OabSample.s_pad) [10; n - 10]) = snd (Lzx.lzx_run 17 0 n true [] (OabSample.s_stream ++ OabSample.s_pad) [n]).
 Proof. split; vm_compute; reflexivity. Qed.
+
+(* The property as stated is FALSE of the model of chmd_extract (and of chmd.c: the recorded finding chm-skip-through-damaged-interval) for
+   helpfiles with a damaged reset interval: on the generated helpfile below (a reset point every frame; the first bytes of the second
+   interval overwritten) the member /c4.bin, which lies in the third, intact interval, is refused after /c0.bin has been extracted - the
+   live decoder skips forward through the damage - while a fresh decompressor, which starts at the member's own reset point, delivers its
+   900 bytes.  The same file and calls are run on the C library by tools/props/C08.py (model and C agree on both sessions). *)
+From MSP Require Props.ChmDamageSample.
+Definition c08_last (r : N * option (hdr * list ent * list ent) * list opres) : option opres := last (map Some (snd r)) None.
+Theorem C08_chm_history_independence_refuted_for_damaged_interval :
+  exists file hist m,
+    c08_last (chm_session file true (hist ++ [OpExtract m])) = Some (RExtract 11 []) /\
+    c08_last (chm_session file true [OpExtract m]) = Some (RExtract 0 (repeat 0 900)).
+Proof.
+  exists ChmDamageSample.damaged_chm, [OpExtract ChmDamageSample.idx_c0], ChmDamageSample.idx_c4. split; vm_compute; reflexivity.
+Qed.
+Print Assumptions C08_chm_history_independence_refuted_for_damaged_interval.
